@@ -134,6 +134,9 @@ func main() {
 			case "funcq": // wp k01dec (ext_k01dec.go): funcm with the object types of the QR decoder
 				text, err = k01decGenFunc(p, e)
 				monadic[e.module] = true
+			case "ambient", "funcv": // ext_c04tie.go (value-passing target)
+				text, err = genExtC04(p, e)
+				monadic[e.module] = true
 			default:
 				err = fmt.Errorf("unknown kind %s", e.kind)
 			}
@@ -146,7 +149,7 @@ func main() {
 		}
 		it.Nodes = nodes
 		items = append(items, it)
-		if e.kind != "table" {
+		if e.kind != "table" && e.kind != "ambient" {
 			// `has_<name>`: lets obligation files / evidence see whether the kernel was translated
 			text += fmt.Sprintf("\ndef has_%s : Bool := %v\n", e.lean, err == nil)
 		}
